@@ -82,11 +82,47 @@ func BuildTLCP(e EPConfig, reg *Registry) *tlcp.Config {
 		}
 		c.SessionCache = sc.(tlcp.SessionCache)
 	}
+	certViaTLCP(c, e)
 	extraTLCP(c, e)
 	if e.Clone {
 		c = c.Clone()
 	}
 	return c
+}
+
+// certViaTLCP moves key pairs from the Certificates list to the Get* callbacks: "cb" every pair,
+// "mixed" the signing pair stays first in the list and the encryption pair comes from its callback.
+// The callbacks answer as the list lookup would (client: only a pair the request's CA list admits).
+func certViaTLCP(c *tlcp.Config, e EPConfig) {
+	if e.CertVia == "" || len(c.Certificates) == 0 {
+		return
+	}
+	all := c.Certificates
+	keep := 0
+	if e.CertVia == "mixed" {
+		keep = 1
+	}
+	c.Certificates = all[:keep:keep]
+	if keep == 0 {
+		sig := all[0]
+		c.GetCertificate = func(*tlcp.ClientHelloInfo) (*tlcp.Certificate, error) { return &sig, nil }
+		c.GetClientCertificate = func(cri *tlcp.CertificateRequestInfo) (*tlcp.Certificate, error) {
+			if cri.SupportsCertificate(&sig) == nil {
+				return &sig, nil
+			}
+			return new(tlcp.Certificate), nil
+		}
+	}
+	if len(all) > 1 {
+		enc := all[1]
+		c.GetKECertificate = func(*tlcp.ClientHelloInfo) (*tlcp.Certificate, error) { return &enc, nil }
+		c.GetClientKECertificate = func(cri *tlcp.CertificateRequestInfo) (*tlcp.Certificate, error) {
+			if cri.SupportsCertificate(&enc) == nil {
+				return &enc, nil
+			}
+			return nil, fmt.Errorf("no acceptable encryption certificate")
+		}
+	}
 }
 
 // StateTLCP projects a connection's observable state.
